@@ -216,7 +216,13 @@ impl Output {
                 self.create_file_non_lazily(file_size)?
             }
         };
+        #[cfg(feature = "verif")]
+        crate::verif_api::fault::fault_point("after-output-created")?;
+
         write_fn(&mut sized_output, layout)?;
+
+        #[cfg(feature = "verif")]
+        crate::verif_api::fault::fault_point("before-flush")?;
         sized_output.flush()?;
         sized_output.trace.close()?;
 
